@@ -108,8 +108,9 @@ NOTHING = object()
 
 
 class Interp:
-    def __init__(self, fn, helpers=None, oracle=None, loop_binder=None, max_paths=64):
+    def __init__(self, fn, helpers=None, oracle=None, loop_binder=None, max_paths=64, split_tests=False):
         self.fn = fn
+        self.split_tests = split_tests      # fork on the atoms of `a and b` / `a or b` tests (short-circuit order)
         self.helpers = dict(helpers or {})
         for k, v in fn.nested.items():
             self.helpers.setdefault(k, v)
@@ -346,6 +347,8 @@ class Interp:
 
     def _test(self, test, p, then, orelse):
         """Fork on an opaque test."""
+        if self.split_tests:
+            return self._test_k(test, p, lambda q: self.block(then, [q]), lambda q: self.block(orelse, [q]))
         try:
             v = self.ev(test, p)
         except _Forked:
@@ -359,6 +362,31 @@ class Interp:
         p.assume(_t(v), True)
         q.assume(_t(v), False)
         return self.block(then, [p]) + self.block(orelse, [q])
+
+    def _test_k(self, test, p, k_true, k_false):
+        """Continuation form of _test that forks on the atoms of a compound test in short-circuit order, so that two
+        tests sharing an atom (`if a and not b: ...` followed by `if a: ...`) are decided consistently."""
+        if isinstance(test, ast.BoolOp) and len(test.values) >= 2:
+            first = test.values[0]
+            rest = test.values[1] if len(test.values) == 2 else ast.BoolOp(op=test.op, values=test.values[1:])
+            if isinstance(test.op, ast.And):
+                return self._test_k(first, p, lambda q: self._test_k(rest, q, k_true, k_false), k_false)
+            return self._test_k(first, p, k_true, lambda q: self._test_k(rest, q, k_true, k_false))
+        if isinstance(test, ast.UnaryOp) and isinstance(test.op, ast.Not):
+            return self._test_k(test.operand, p, k_false, k_true)
+        try:
+            v = self.ev(test, p)
+        except _Forked:
+            raise AnalysisError(f'absint: helper with several outcomes inside a test `{short(test)}`')
+        if _concrete(v):
+            return k_true(p) if v else k_false(p)
+        a = p.assumed(_t(v))
+        if a is not None:
+            return k_true(p) if a else k_false(p)
+        q = p.fork()
+        p.assume(_t(v), True)
+        q.assume(_t(v), False)
+        return k_true(p) + k_false(q)
 
     def _stmt(self, st, p):
         if isinstance(st, (ast.Pass, ast.FunctionDef, ast.Import, ast.ImportFrom, ast.Global, ast.Nonlocal)):
